@@ -363,14 +363,17 @@ Fixpoint collect (ps : list rawpart) (f : mform) : mform :=
       end
   end.
 
-(* readMultipartForm(r, boundary, size, _): size <= 0 is an error, the body is cut at size bytes *)
+(* readMultipartForm(r, boundary, size, _): size <= 0 is an error; the parser sees at most size bytes
+   (io.LimitedReader); after a successful parse the rest of the size bytes is discarded, and a body that
+   ends before size bytes were delivered is an unexpected EOF (the form's files are removed) *)
 Definition read_form (b : bytes) (size : Z) (s : bytes) : option mform :=
   if (size <=? 0)%Z then None
   else let s' := firstn (Z.to_nat size) s in
        match b with
        | [] => None                                          (* "multipart: boundary is empty" *)
        | _ => match read_parts (S (length s')) b false s' with
-              | Some ps => Some (collect ps (Build_mform [] []))
+              | Some ps => if (Z.of_nat (length s) <? size)%Z then None
+                           else Some (collect ps (Build_mform [] []))
               | None => None
               end
        end.
@@ -390,14 +393,18 @@ Fixpoint spilled (avail : Z) (sizes : list Z) : list Z :=
 Definition tmpfiles_of (max_mem : Z) (sizes : list Z) : list Z :=
   match spilled max_mem sizes with [] => [] | l => [fold_right Z.add 0 l] end.
 
-Definition stream_max_memory : Z := 8 * 1024.      (* the literal in MultipartFormWithLimit *)
+(* the argument of mr.ReadForm in MultipartFormWithLimit: 4th integer constant of the function body
+   (maxBodySize > 0, <= 0 x2 and + 1 come before it), regenerated from the source by the translator *)
+Definition stream_max_memory : Z := nth 3 mpfl_ints 0.
 
 Record scfg := { sc_stream : bool;       (* Server.StreamRequestBody *)
                  sc_preparse : bool }.   (* !Server.DisablePreParseMultipartForm *)
 
 (* what arrives: is it multipart/form-data with a usable boundary and no Content-Encoding, is
    Content-Length > 0, the sizes of its file parts in order, does the body parse *)
-Record reqd := { rq_multipart : bool; rq_clpos : bool; rq_files : list Z; rq_wellformed : bool }.
+Record reqd := { rq_multipart : bool; rq_clpos : bool; rq_files : list Z; rq_wellformed : bool;
+                 rq_len : Z;       (* length of the body *)
+                 rq_close : Z }.   (* length of its closing delimiter CRLF--boundary--CRLF *)
 
 Record rstate := {
   r_desc : reqd;
@@ -416,6 +423,7 @@ Record cstate := {
 
 Inductive hop :=
 | OForm                          (* ctx.MultipartForm() *)
+| OFormLimit (l : Z)             (* ctx.Request.MultipartFormWithLimit(l) *)
 | ODrop                          (* SetBody / SetBodyString / AppendBody / ResetBody / SetBodyRaw / SetBodyStream: new body *)
 | ORemove                        (* RemoveMultipartFormFiles: the body stays *)
 | OUserRemove                    (* the handler deletes / moves the files of the parsed form itself *)
@@ -438,6 +446,56 @@ Definition form_files (r : rstate) : list Z := match r_form r with Some fs => fs
 (* Request.Reset / resetSkipHeader / ResetBody -> RemoveMultipartFormFiles *)
 Definition reset_request (r : rstate) (disk : list Z) : list Z := remove_all (form_files r) disk.
 
+(* How far the io.LimitedReader{N: maxBodySize+1} lets the parser get on a well-formed body of rq_len
+   bytes that ends with its closing delimiter: LFull = the whole form is parsed (all of the body fits,
+   or only the final CRLF is cut off: "--boundary--" at EOF is still the final boundary);
+   LFail = the cut falls inside the closing delimiter or the data of the last part: ReadForm fails
+   (and removes what it spilled); LUnknown = cut further up (not modelled) *)
+Inductive lcut := LFull | LFail | LUnknown.
+Definition limit_cut (l : Z) (d : reqd) : lcut :=
+  let cut := rq_len d - (l + 1) in
+  if (cut <=? 0) || (cut =? 2) then LFull
+  else if cut <=? rq_close d + last (rq_files d) 0 then LFail
+  else LUnknown.
+
+(* Request.MultipartFormWithLimit(l) (MultipartForm() = limit 0) *)
+Definition form_with_limit (l : Z) (r : rstate) (s : cstate) : option cstate :=
+  match r_form r with
+  | Some _ => Some s                                                         (* already parsed: returned as is *)
+  | None =>
+      if negb (rq_multipart (r_desc r)) then Some s                          (* ErrNoMultipartForm *)
+      else if r_stream r then
+        (* req.bodyStream != nil: mr.ReadForm(8*1024) over the stream, behind a LimitedReader when l > 0 *)
+        if r_consumed r then Some s                                          (* nothing left to read: error *)
+        else if negb (rq_wellformed (r_desc r)) then                         (* parse error: ReadForm keeps nothing *)
+          Some (Build_cstate (CHandling (Build_rstate (r_desc r) None true true)) (c_disk s) (c_detached s))
+        else
+          let fs := tmpfiles_of stream_max_memory (rq_files (r_desc r)) in
+          let kept := Build_rstate (r_desc r) (Some fs) true true in
+          if l <=? 0 then
+            Some (Build_cstate (CHandling kept) (c_disk s ++ fs) (c_detached s))
+          else
+            match limit_cut l (r_desc r) with
+            | LFull =>
+                if rq_len (r_desc r) <=? l then                              (* lr.N > 0: the form is kept *)
+                  Some (Build_cstate (CHandling kept) (c_disk s ++ fs) (c_detached s))
+                else
+                  (* ReadForm succeeded but lr.N <= 0: req.RemoveMultipartFormFiles(); ErrBodyTooLarge *)
+                  Some (Build_cstate (CHandling (Build_rstate (r_desc r) None true true))
+                                     (reset_request kept (c_disk s ++ fs)) (c_detached s))
+            | LFail =>                                                       (* err != nil: ReadForm removed its files *)
+                Some (Build_cstate (CHandling (Build_rstate (r_desc r) None true true)) (c_disk s) (c_detached s))
+            | LUnknown => None
+            end
+      else
+        (* buffered body: len(body) > maxBodySize is refused before parsing *)
+        if (0 <? l) && (l <? rq_len (r_desc r)) then Some s
+        else if negb (rq_wellformed (r_desc r)) then Some s
+        else
+          (* readMultipartForm(body, boundary, len(body), len(body)): nothing can exceed the memory limit *)
+          Some (Build_cstate (CHandling (Build_rstate (r_desc r) (Some []) false false)) (c_disk s) (c_detached s))
+  end.
+
 Definition cstep (c : scfg) (s : cstate) (e : cevent) : option cstate :=
   match e, c_ph s with
   | VDispatch d, CIdle =>
@@ -447,29 +505,14 @@ Definition cstep (c : scfg) (s : cstate) (e : cevent) : option cstate :=
           let fs := tmpfiles_of defaultMaxInMemoryFileSize (rq_files d) in
           Some (Build_cstate (CHandling (Build_rstate d (Some fs) false false)) (c_disk s ++ fs) (c_detached s))
         else
-          (* ReadForm removes what it created; req.Reset(); error response; connection closed *)
+          (* ReadForm (or readMultipartForm on a short body) removes what it created; req.Reset(); error response; connection closed *)
           Some (Build_cstate CClosed (c_disk s) (c_detached s))
       else
         Some (Build_cstate (CHandling (Build_rstate d None (sc_stream c) false)) (c_disk s) (c_detached s))
-  | VOp OForm, CHandling r =>
-      match r_form r with
-      | Some _ => Some s
-      | None =>
-          if negb (rq_multipart (r_desc r)) then Some s                      (* ErrNoMultipartForm *)
-          else if r_stream r then
-            if r_consumed r then Some s                                      (* nothing left to read: error *)
-            else if negb (rq_wellformed (r_desc r)) then                     (* parse error: nothing kept *)
-              Some (Build_cstate (CHandling (Build_rstate (r_desc r) None true true)) (c_disk s) (c_detached s))
-            else
-              let fs := tmpfiles_of stream_max_memory (rq_files (r_desc r)) in
-              Some (Build_cstate (CHandling (Build_rstate (r_desc r) (Some fs) true true)) (c_disk s ++ fs) (c_detached s))
-          else if negb (rq_wellformed (r_desc r)) then Some s
-          else
-            (* readMultipartForm(body, boundary, len(body), len(body)): nothing can exceed the memory limit *)
-            Some (Build_cstate (CHandling (Build_rstate (r_desc r) (Some []) false false)) (c_disk s) (c_detached s))
-      end
+  | VOp OForm, CHandling r => form_with_limit 0 r s
+  | VOp (OFormLimit l), CHandling r => form_with_limit l r s
   | VOp ODrop, CHandling r =>
-      Some (Build_cstate (CHandling (Build_rstate (Build_reqd false false [] false) None false false))
+      Some (Build_cstate (CHandling (Build_rstate (Build_reqd false false [] false 0 0) None false false))
                          (reset_request r (c_disk s)) (c_detached s))
   | VOp ORemove, CHandling r =>
       Some (Build_cstate (CHandling (Build_rstate (r_desc r) None (r_stream r) (r_consumed r)))
